@@ -37,6 +37,9 @@ pub struct Hist {
     /// only fail when the stored form is built)
     dates: bool,
     next_date_key: i64,
+    /// C09: one table keyed by a SMALLINT primary key (integer literals are INTEGERs: the key lookup
+    /// of UPDATE/DELETE must not confuse 65537 with 1)
+    small_key: bool,
 }
 
 /// One statement built to reach value-dependent failure modes: slicing inside multi-byte characters,
@@ -317,7 +320,7 @@ impl Scenario for Hist {
     const NAME: &'static str = "hist";
 
     fn new(prop: &str, sw: &Swarm) -> Self {
-        Hist { sut: Sut::new(), world: World::default(), sw: sw.clone(), setup: Vec::new(), begin_snap: None, begin_world: None, sp_stack: Vec::new(), dead_savepoints: Vec::new(), hostile: prop == "C24", dates: prop == "C11" && sw.max_rows_stmt % 2 == 0, next_date_key: 0 }
+        Hist { sut: Sut::new(), world: World::default(), sw: sw.clone(), setup: Vec::new(), begin_snap: None, begin_world: None, sp_stack: Vec::new(), dead_savepoints: Vec::new(), hostile: prop == "C24", dates: prop == "C11" && sw.max_rows_stmt % 2 == 0, next_date_key: 0, small_key: prop == "C09" && sw.max_rows_stmt % 3 == 0 }
     }
 
     fn next_op(&mut self, rng: &mut Rng, cx: &mut Ctx) -> Option<Op> {
@@ -363,6 +366,18 @@ impl Scenario for Hist {
                         first = Some(d.clone());
                     }
                     self.setup.push(Op::create_table(d));
+                }
+                if self.small_key {
+                    let def = TableDef {
+                        name: "tsm".into(),
+                        cols: vec![ColDef { name: "c0".into(), ty: Ty::Int, not_null: true }, ColDef { name: "c1".into(), ty: Ty::Int, not_null: false }],
+                        pk: vec![0],
+                        ..Default::default()
+                    };
+                    let mut op = Op::create_table(def);
+                    op.sql = "CREATE TABLE tsm (c0 SMALLINT PRIMARY KEY, c1 INTEGER)".into();
+                    self.setup.push(op);
+                    self.setup.push(Op::insert("tsm", &[], vec![vec![Lit::Int(1), Lit::Int(10)], vec![Lit::Int(2), Lit::Int(20)], vec![Lit::Int(-4), Lit::Int(30)], vec![Lit::Int(300), Lit::Null]]));
                 }
             }
             self.setup.reverse();
@@ -449,6 +464,19 @@ impl Scenario for Hist {
                     op = fk_adjust_insert(rng, &self.sut, &self.world, &def, op);
                 }
                 op
+            }
+            1 | 2 if def.name == "tsm" && rng.chance(1, 2) => {
+                // key lookups with literals that are out of SMALLINT range and wrap onto stored keys
+                let keys = existing_values(&self.sut, "tsm", 0);
+                let ints: Vec<i64> = keys.iter().filter_map(|l| if let Lit::Int(i) = l { Some(*i) } else { None }).collect();
+                let base = if ints.is_empty() { 1 } else { *rng.pick(&ints) };
+                let lit = base + 65536 * rng.range(-2, 2);
+                let pred = if rng.chance(1, 2) { format!("c0 = {}", lit) } else { format!("{} = c0", lit) };
+                if rng.chance(1, 2) {
+                    Op::update("tsm", vec![("c1".into(), format!("{}", rng.range(0, 50)))], Some(pred))
+                } else {
+                    Op::delete("tsm", Some(pred))
+                }
             }
             1 => {
                 let mut op = gen_update(rng, &sw, &self.sut, &def, o);
